@@ -35,7 +35,7 @@ SELFTEST_TASK = ('perm', 0)
 
 def tasks(tier, seed):
     nkeys = 6 if tier == 'thorough' else 5
-    out = [('perm', i) for i in range(nkeys)] + [('subsets',), ('long',), ('twins',), ('unordered',)]
+    out = [('perm', i) for i in range(nkeys)] + [('subsets',), ('long',), ('twins',), ('unordered',), ('hashseeds',)]
     if tier == 'thorough':
         out += [('m',) + t for t in corpus.method_tasks(tier)]
     else:
@@ -359,6 +359,39 @@ def check_unordered(ctx):
                     ctx.outcome('ok')
 
 
+def check_hash_seeds(ctx):
+    """The same list of values encoded in interpreters started with three
+    different PYTHONHASHSEED values (a default interpreter picks one at
+    random): one digest.  Encoding must not follow the iteration order of
+    anything hashed by str."""
+    import json
+    import os
+    import subprocess
+    import sys
+    digests = {}
+    for seed in ('0', '1', '4242', '987654321'):
+        env = dict(os.environ, PYTHONHASHSEED=seed)
+        out = subprocess.run([sys.executable, '-m', 'mc.c12child'], env=env,
+                             capture_output=True, text=True, timeout=600)
+        ctx.case(('hashseed', seed), True, sample={'PYTHONHASHSEED': seed})
+        ctx.calls()
+        ctx.valid()
+        try:
+            rep = json.loads(out.stdout.strip().splitlines()[-1])
+            digests[seed] = rep['digest']
+            ctx.count('hash_seed_cases', rep['cases'])
+        except Exception:  # noqa
+            digests[seed] = 'child failed: ' + out.stderr[-300:]
+    if len(set(digests.values())) != 1:
+        ctx.outcome('hash-seed-dependent')
+        ctx.violation('hashseeds', 'the encodings of one fixed list of values '
+                      'differ between interpreters started with different '
+                      'PYTHONHASHSEED values: %s' % (digests,),
+                      {'kind': 'hashseeds'}, 'one digest', digests)
+    else:
+        ctx.outcome('ok')
+
+
 def check_frame_twice(ctx, label, build, marshal, case):
     """build() -> object; marshal(obj) -> bytes.  Twice + non-mutation, and a
     freshly built equal object encodes identically."""
@@ -428,6 +461,8 @@ def run(task, ctx):
         check_long_keys(ctx)
     elif kind == 'unordered':
         check_unordered(ctx)
+    elif kind == 'hashseeds':
+        check_hash_seeds(ctx)
     elif kind == 'twins':
         check_twins(ctx)
     elif kind in ('m', 'm2'):
@@ -478,6 +513,8 @@ def replay(case, ctx):
         check_long_keys(ctx)
     elif kind == 'unordered':
         check_unordered(ctx)
+    elif kind == 'hashseeds':
+        check_hash_seeds(ctx)
     elif kind == 'twins':
         check_twins(ctx)
     elif kind == 'method':
